@@ -73,6 +73,20 @@ def _guards(tier: str) -> None:
         pass
 
 
+_LOCK = None
+
+
+def _serialize(pid: str) -> None:
+    """Two runs of the SAME check share scratch directories under out/: let them take turns."""
+    global _LOCK
+    import fcntl
+
+    d = VERIF / "out" / "locks"
+    d.mkdir(parents=True, exist_ok=True)
+    _LOCK = open(d / f"{pid}.lock", "w")
+    fcntl.flock(_LOCK, fcntl.LOCK_EX)
+
+
 def setup_repo_path() -> str:
     repo = os.environ.get("VERIF_REPO") or "/repo"
     src = str(Path(repo) / "src")
@@ -99,6 +113,7 @@ def main() -> int:
 
     tier, seed = core.tier_seed(args.tier)
     _guards(tier)
+    _serialize(args.prop.upper())
     repo = setup_repo_path()
     pid = args.prop.upper()
     rep = core.Report(property_id=pid, tier=tier, seed=seed)
